@@ -48,9 +48,8 @@ def slices(tier):
     o3 = spaces.ordered_syntenies(3)
     o2 = spaces.ordered_syntenies(2)
     sub_abc = spaces.subsequence_syntenies(3) + [("b", "a"), ("c", "b"), ("c", "a")]
-    if tier == "quick":
-        quick_menu = [core[0], core[2], core[4], core[7]]
-        return [
+    quick_menu = [core[0], core[2], core[4], core[7]]
+    quick = [
             ("O3x2x3", spaces.shape_pairs(3, 2), o3, quick_menu + [core[6]], False),   # + hgt = 0
             ("R-root3x2x2", spaces.shape_pairs(3, 2, min_obj=2), o2, quick_menu[:2], True),
             # 4 object leaves in a chain on one species, leaves holding subsequences of abc: three nested ancestors, a
@@ -74,8 +73,11 @@ def slices(tier):
             ("O4x4x1/dear-transfer", spaces.shape_pairs(4, 4, min_obj=4, min_sp=4), spaces.ordered_syntenies(1),
              [(0, 1, 6, 1, 1)], False),
         ]
+    if tier == "quick":
+        return quick
     full = core + [c for c in EXTRA_VECTORS if spaces.coherent(c)]
-    return [
+    # thorough: everything quick explores that the larger slices below do not subsume, then the larger slices
+    return [q for q in quick if q[0] not in ("O3x2x3", "R-root3x2x2")] + [
         ("O3x3x3", spaces.shape_pairs(3, 3), o3, full, False),
         ("O4x3x2", spaces.shape_pairs(4, 3, min_obj=4), o2, core, False),
         ("O4x2x3s", spaces.shape_pairs(4, 2, min_obj=4), sub_abc, core[:5], False),
